@@ -162,6 +162,14 @@ def make_header(c):
     h['BMIN'] = float(c['beam'][1])
     h['BPA'] = float(c['beam'][2])
     h['BUNIT'] = 'Jy/beam'
+    if c.get('sip'):
+        # the same projection in its alternative standard spelling with a SIP distortion polynomial (pixel -> intermediate)
+        h['CTYPE1'] = 'RA---' + c['proj'] + '-SIP'
+        h['CTYPE2'] = 'DEC--' + c['proj'] + '-SIP'
+        h['A_ORDER'] = 2
+        h['B_ORDER'] = 2
+        for k, v in c['sip'].items():
+            h[k] = float(v)
     return h
 
 
@@ -336,6 +344,60 @@ def resolved_option_cases(rng):
     return out
 
 
+def map_option_cases(rng):
+    """rms and/or background supplied as MAP FILES (rmsin= / bkgin=), alone and combined with a forced or an internally
+    estimated other quantity, on a pedestal: m = map, f = forced, e = estimated"""
+    out = []
+    for k, opts in enumerate(['mf', 'fm', 'mm', 'me', 'em']):
+        s = 10.0 / 3600.0
+        beam_px = 3.2
+        a_px = beam_px * rng.uniform(1.0, 2.5)
+        peak = rng.choice([1.0, -1.0, 4.0])
+        c = dict(proj=PROJS[k % 5], n=[160, 150], crval=[rng.uniform(0, 360), rng.choice([-30.0, 45.0, 70.0])], crpix=[80.0, 75.0], scale=s,
+                 beam=[beam_px * s, beam_px * s, 0.0], xy=[80.0 + rng.uniform(-10, 10), 75.0 + rng.uniform(-10, 10)],
+                 a=a_px * s * 3600, b=max(beam_px, a_px * rng.uniform(0.6, 1.0)) * s * 3600, pa=rng.uniform(-89, 89), peak=peak,
+                 docov=False, snr=200.0, opts=opts, pedestal=abs(peak) * rng.choice([0.3, -0.2, 1.0]))
+        if opts[0] == 'e':
+            c.update(noise=abs(peak) / 5000.0, noise_kind='white', noise_seed=3000 + k, exact=True)
+        out.append(c)
+    return out
+
+
+def sip_cases(rng):
+    """the TAN (and the other four) projections in the alternative standard spelling `-SIP` with a quadratic distortion
+    polynomial; reference pixel off the image so that the distortion at the source is 0.1 ... 1 pixel while the local scale
+    changes by < 0.5 %"""
+    out = []
+    for k in range(3):
+        c = gen_case(rng, True)
+        for key in ('symmetric', 'kind'):
+            c.pop(key, None)
+        s = rng.choice([5.0, 10.0]) / 3600.0
+        bpx = 3.2
+        off = rng.uniform(400.0, 600.0)
+        ang = rng.uniform(0, 2 * math.pi)
+        c.update(proj=['TAN', 'TAN', 'SIN'][k], n=[110, 100], scale=s, crpix=[55.0 + off * math.cos(ang), 50.0 + off * math.sin(ang)],
+                 crval=[rng.uniform(0, 360), rng.choice([-30.0, 20.0, 60.0])], beam=[bpx * s, bpx * s, 0.0],
+                 xy=[rng.uniform(35, 75), rng.uniform(30, 70)], a=bpx * s * 3600 * rng.uniform(1.0, 2.0), pa=rng.uniform(-89, 89),
+                 docov=(k == 1), snr=200.0)
+        c['b'] = max(bpx * s * 3600, c['a'] * rng.uniform(0.5, 1.0))
+        # a CONFORMAL quadratic distortion, f + i g = (cr + i ci)(u + i v)^2: locally a similarity, so that the slice tests
+        # the position (and the use of the distortion at all) and not the axis conversion under shear, which is C16's open
+        # finding; |c| off^2 = 0.15 ... 0.3 px at the source, local scale change 2 |c| off < 0.15 %
+        cabs = rng.uniform(0.15, 0.3) / off ** 2
+        ph = rng.uniform(0, 2 * math.pi)
+        cr, ci = cabs * math.cos(ph), cabs * math.sin(ph)
+        c['sip'] = {'A_2_0': cr, 'A_0_2': -cr, 'A_1_1': -2 * ci, 'B_2_0': ci, 'B_0_2': -ci, 'B_1_1': 2 * cr}
+        out.append(c)
+    return out
+
+
+# "filename : str or HDUList" per the docstring of find_sources_in_image; open known finding C01-hdulist-input
+KNOWN_HDULIST = dict(proj='SIN', n=[96, 80], crval=[180.0, -30.0], crpix=[48.0, 40.0], scale=10.0 / 3600.0,
+                     beam=[30.0 / 3600.0, 30.0 / 3600.0, 0.0], xy=[50.3, 40.6], a=45.0, b=35.0, pa=35.0, peak=1.0,
+                     docov=False, snr=200.0, input='hdulist')
+
+
 def correlated_noise(rs, shape, c, sigma):
     """white noise smoothed with the (pixel) beam, rescaled to rms sigma"""
     from scipy.ndimage import gaussian_filter
@@ -349,6 +411,8 @@ def find(ctx, c, img, h):
     from AegeanTools.source_finder import SourceFinder
     fn = os.path.join(ctx.tmpdir(), 'c01-%d.fits' % os.getpid())
     fits.PrimaryHDU(data=img, header=h).writeto(fn, overwrite=True)
+    if c.get('input') == 'hdulist':     # "filename : str or HDUList" (docstring of find_sources_in_image)
+        fn = fits.HDUList([fits.PrimaryHDU(data=np.array(img), header=h)])
     sf = SourceFinder(log=DEBUGLOG if c.get('debug') else NULLLOG)
     kw = dict(cores=1, docov=bool(c['docov']), innerclip=5, outerclip=4, nonegative=False, nopositive=False)
     if c.get('debug'):
@@ -389,10 +453,22 @@ def _find_run(ctx, c, sf, fn, kw):
     from AegeanTools.source_finder import SourceFinder
     # option set: first letter rms, second bkg; f = forced by the caller, e = estimated internally (BANE)
     opts = c.get('opts') or ('ee' if c.get('bane') else 'ff')
+    rmsval = c['noise'] if c.get('noise') else abs(c['peak']) / c['snr']
     if opts[0] == 'f':
-        kw['rms'] = c['noise'] if c.get('noise') else abs(c['peak']) / c['snr']
+        kw['rms'] = rmsval
     if opts[1] == 'f':
         kw['bkg'] = float(c.get('pedestal', 0.0))
+    # m = supplied as a map file (rmsin= / bkgin=): a constant map with the value that would have been forced
+    if 'm' in opts:
+        from astropy.io import fits as _fits
+        hdr = _fits.getheader(fn) if isinstance(fn, str) else fn[0].header
+        shape = (hdr['NAXIS2'], hdr['NAXIS1'])
+        if opts[0] == 'm':
+            kw['rmsin'] = os.path.join(ctx.tmpdir(), 'c01-rms-%d.fits' % os.getpid())
+            _fits.PrimaryHDU(data=np.full(shape, rmsval), header=hdr).writeto(kw['rmsin'], overwrite=True)
+        if opts[1] == 'm':
+            kw['bkgin'] = os.path.join(ctx.tmpdir(), 'c01-bkg-%d.fits' % os.getpid())
+            _fits.PrimaryHDU(data=np.full(shape, float(c.get('pedestal', 0.0))), header=hdr).writeto(kw['bkgin'], overwrite=True)
     cap = getattr(ctx, '_c01_capture', None)
     if cap is None:
         return sf.find_sources_in_image(fn, **kw)
@@ -585,7 +661,8 @@ def pretty(c):
             f"src xy=({c['xy'][0]:.3f},{c['xy'][1]:.3f}) a={c['a'] / px:.2f}px b={c['b'] / px:.2f}px pa={c['pa']:.2f} peak={c['peak']:.4g} "
             f"docov={c['docov']} snr={c['snr']:g}" + (' bane' if c.get('bane') else '') + (f" noise={c['noise']:g}" if c.get('noise') else '')
             + (f" opts={c['opts']}" if c.get('opts') else '') + (f" pedestal={c['pedestal']:g}" if c.get('pedestal') else '')
-            + (' symmetric' if c.get('symmetric') else '') + (' judged' if c.get('judged') else ''))
+            + (' symmetric' if c.get('symmetric') else '') + (' judged' if c.get('judged') else '')
+            + (' SIP' + json.dumps(c['sip']) if c.get('sip') else '') + (' input=' + c['input'] if c.get('input') else ''))
 
 
 def loop_case(ctx, c, record=True):
@@ -611,8 +688,10 @@ def loop_case(ctx, c, record=True):
     except Exception as e:  # the finder must not raise (or stall) on a valid image
         if record:
             ctx.case(c)
-            ctx.fail('spec', dict(c, pretty=pretty(c)), f"find_sources_in_image raised {type(e).__name__}: {e}",
-                     dict(site='find_sources_in_image', clauses='raises'))
+            sig = dict(site='find_sources_in_image', clauses='raises')
+            if c.get('input') == 'hdulist' and isinstance(e, (TypeError, RuntimeError)) and 'CaseTimeout' not in str(e):
+                sig = dict(site='find_sources_in_image', clauses='raises', input='hdulist', error='TypeError')
+            report(ctx, 'spec', dict(c, pretty=pretty(c)), f"find_sources_in_image raised {type(e).__name__}: {e}", sig)
         return ['raises'], {}
     if c.get('noise') and not c.get('exact'):
         return judge_noisy(ctx, c, truth, w, out, record)
@@ -1327,6 +1406,20 @@ def run(ctx):
             ctx.count('skipped-after-stall:' + c['opts'])
             continue
         bad, _ = loop_case(ctx, c)
+        if 'raises' in bad and ctx.failures and 'CaseTimeout' in str(ctx.failures[-1]['detail']):
+            stalled.add(c.get('opts'))
+    extra = [KNOWN_HDULIST]
+    if not any(e.get('id') == 'C01-hdulist-input' for e in common.load_known('C01')):
+        # the witness is run (and printed as KNOWN-FINDING) once the fragment known_findings.d/C01.json has been assembled
+        ctx.note("open finding C01-hdulist-input is not in known_findings.json yet: its witness is not run")
+        extra = []
+    for c in map_option_cases(ctx.rng) + sip_cases(ctx.rng) + extra:
+        if c.get('opts') in stalled:
+            ctx.count('skipped-after-stall:' + c['opts'])
+            continue
+        bad, _ = loop_case(ctx, c)
+        if c.get('sip'):
+            ctx.count('sip')
         if 'raises' in bad and ctx.failures and 'CaseTimeout' in str(ctx.failures[-1]['detail']):
             stalled.add(c.get('opts'))
     for c in pair_cases(ctx.rng):
